@@ -19,6 +19,12 @@ TarsInvoke holds at CallEnd is what counts -- a caller that reports success alth
 observed (TCallEndClaim) and judged by ReplyMatches.
 B3 for the generator: sequential and concurrent draws from the real genRequestID judged by Oracle_ClientMux (bursts started
 through a channel and through a spinning start line of three goroutines).
+Adapters closed while calls are outstanding on them (muxdrive adpclose, Trace_ClientMuxAdp, MC_adpclose*): a proxy fed by a
+scripted registry whose refresh withdraws / re-keys / re-adds / moves to the inactive list an endpoint through the manager's own
+refresher (endpointManager.refreshEndpoints -> AdapterProxy.Close), and the export close on a direct endpoint, with a first wave
+of calls outstanding and a second wave started right behind the close.  Every event is written through to a journal; a process
+that ends during a scenario is run again alone and, if it ends again, the journal + ProcExit is what TLC judges (no step for
+ProcExit while a call is in flight).
 This module also holds the machinery shared with C09 (checks/c09.py).
 """
 import json
@@ -37,8 +43,8 @@ HOOKS = ["mux.reg.begin", "mux.registered", "mux.unreg.begin", "mux.unregistered
 
 
 # ------------------------------------------------------------------ model checking
-def start_mc(ctx, ex, cfgs, workers=4, timeout=900):
-    return {c: ex.submit(tlc.run, ctx, SPEC, "MC_ClientMux", cfg="MC_%s.cfg" % c, workers=workers, timeout=timeout, name="mc-" + c)
+def start_mc(ctx, ex, cfgs, workers=4, timeout=900, module="MC_ClientMux"):
+    return {c: ex.submit(tlc.run, ctx, SPEC, module, cfg="MC_%s.cfg" % c, workers=workers, timeout=timeout, name="mc-" + c)
             for c in cfgs}
 
 
@@ -49,7 +55,7 @@ def collect_mc(futs, expect_violation=None):
     for c, f in futs.items():
         r = f.result()
         if c in expect_violation:
-            if expect_violation[c] not in r.inv_violated:
+            if expect_violation[c] not in r.inv_violated + r.prop_violated:
                 raise Inconclusive("MC_%s was expected to violate %s (vacuity guard) but did not:\n%s"
                                    % (c, expect_violation[c], "\n".join(r.out.splitlines()[-15:])))
             mc[c] = {"expected_violation": expect_violation[c], "distinct": r.distinct}
@@ -145,9 +151,154 @@ def cls_of(t):
     return t[0]["cls"] + ("" if flt in ("none", "") else "+%s-filter" % flt)
 
 
+# ------------------------------------------------------------------ adapters closed while calls are outstanding on them
+ADP_MODULE, ADP_SPEC = "Trace_ClientMuxAdp", "AdpSpec"
+ADP_CLASSES = ["adpclose-drop", "adpclose-export", "adpclose-swap", "adpclose-readd", "adpclose-rekey", "adpclose-midwave", "adpclose-inactive"]
+ADP_CLOSING = [c for c in ADP_CLASSES if c != "adpclose-inactive"]      # classes in which an adapter is closed
+
+
+def read_journal(path):
+    """The events of the scenario that was under way when the process ended (every event was written through at once; a torn
+    last line is dropped).  RecvBegin is completed as the driver does at the end of a run (annotate)."""
+    evs = []
+    if os.path.exists(path):
+        for line in open(path):
+            try:
+                evs.append(json.loads(line))
+            except ValueError:
+                break
+    res = {e["q"]: (1 if e["found"] else 0) for e in evs if e["e"] == "RecvLookup"}
+    for e in evs:
+        if e["e"] == "RecvBegin":
+            e["f"] = res.get(e["q"], 2)
+    return evs
+
+
+def panic_dump(exe):
+    """tars.CheckPanic writes the panic message and the stacks next to the executable (panic.<time>) before it ends the process:
+    the message and the first frames of the framework, for the report."""
+    import glob
+    dumps = sorted(glob.glob(os.path.join(os.path.dirname(exe), "panic.*")), key=os.path.getmtime)
+    if not dumps:
+        return []
+    lines = open(dumps[-1], errors="replace").read().splitlines()
+    frames = [l.strip() for l in lines if "TarsGo/tars" in l and "CheckPanic" not in l and "DumpStack" not in l and not l.startswith("\t")]
+    return ["panic: " + (lines[0] if lines else "?")] + ["at " + f for f in frames[:3]]
+
+
+def drive_adp(ctx, exe, per, maxk, shards, tag, seed=None, classes=None, sc_offset=200000):
+    """muxdrive adpclose in `shards` processes.  A process that ends while a scenario is under way: the scenario is run once more,
+    alone, in a fresh process; only if that process ends too is the recorded part of the run (journal) + ProcExit handed to TLC.
+    The scenarios behind it are run by a further process.  Returns (traces, hits, exits, notes)."""
+    seed = ctx.seed if seed is None else seed
+
+    def cmd(shard, out, *more):
+        return [exe, "adpclose", "-seed", str(seed), "-per", str(per), "-maxk", str(maxk), "-shard", shard, "-out", out] + (
+            ["-classes", ",".join(classes)] if classes else []) + list(more)
+
+    def ended(rc, se, what):
+        if rc == 3 and "muxdrive:" in se:
+            raise Inconclusive("the harness could not run %s: %s" % (what, se[-400:]))
+
+    def one(i):
+        shard, traces, hits, exits, notes, frm = "%d/%d" % (i, shards), [], {}, [], [], 0
+        for rnd in range(per * len(ADP_CLASSES) + 1):
+            out = os.path.join(ctx.work, "%s-%d-%d.ndjson" % (tag, i, rnd))
+            rc, so, se = sh(cmd(shard, out, "-from", str(frm)), timeout=1500, check=False)
+            traces.extend(split(out))
+            if rc == 0:
+                for k, v in json.loads(so.strip().splitlines()[-1])["hits"].items():
+                    hits[k] = hits.get(k, 0) + v
+                return traces, hits, exits, notes
+            ended(rc, se, "the adapter-close scenarios")
+            part = read_journal(out + ".journal")
+            if not part or part[0]["e"] != "Config":
+                raise Inconclusive("muxdrive adpclose ended with status %d outside a scenario:\n%s" % (rc, se[-1500:]))
+            idx = part[0]["sc"]
+            out2 = os.path.join(ctx.work, "%s-%d-again-%d.ndjson" % (tag, i, idx))
+            rc2, so2, se2 = sh(cmd("0/1", out2, "-only", str(idx)), timeout=600, check=False)
+            if rc2 == 0:
+                notes.append("a process running adapter-close scenario %d (%s) ended with status %d; not reproduced when the scenario "
+                             "was run again alone (no verdict)" % (idx, part[0]["cls"], rc))
+                traces.extend(split(out2))
+            else:
+                ended(rc2, se2, "scenario %d" % idx)
+                part2 = read_journal(out2 + ".journal")
+                if part2 and part2[0]["e"] == "Config":
+                    part, rc, se = part2, rc2, se2
+                part.append({"e": "ProcExit", "rc": rc, "t": max(e.get("t", 0) for e in part)})
+                exits.append({"trace": part, "rc": rc, "stderr": [l for l in se.splitlines() if l.strip()][:60] or panic_dump(exe)})
+                traces.append(part)
+            frm = idx + 1
+        raise Inconclusive("muxdrive adpclose: too many processes ended")
+
+    with ThreadPoolExecutor(max_workers=shards) as ex:
+        res = list(ex.map(one, range(shards)))
+    traces, hits, exits, notes = [], {}, [], []
+    for t, h, x, n in res:
+        traces += t
+        exits += x
+        notes += n
+        for k, v in h.items():
+            hits[k] = hits.get(k, 0) + v
+    errs = [e for t in traces for e in t if e["e"] == "HarnessError"]
+    if errs:
+        raise Inconclusive("the harness could not drive %d adapter-close scenario(s): %s" % (len(errs), errs[:3]))
+    for t in traces:
+        if not t or t[0]["e"] != "Config" or t[-1]["e"] not in ("Quiesce", "Hung", "ProcExit"):
+            raise Inconclusive("malformed trace (adapter-close scenario %s)" % (t[0] if t else None))
+        t[0]["drv"] = "adpclose|%d|%d|%d|none|%d" % (seed, per, maxk, t[0]["sc"])
+        t[0]["sc"] += sc_offset
+    return traces, hits, exits, notes
+
+
+def adp_stats(traces):
+    """Per class: runs, adapters closed, calls that were outstanding on an adapter when it was closed, and how those runs' calls ended."""
+    st = {}
+    for t in traces:
+        d = st.setdefault(t[0]["cls"], {"runs": 0, "adapters_closed": 0, "calls_outstanding_on_a_closed_adapter": 0, "call_outcomes": {}})
+        d["runs"] += 1
+        for e in t:
+            if e["e"] in ("Refresh", "AdpClose"):
+                d["adapters_closed"] += e["adapters"] if e["e"] == "AdpClose" else (e["adapters"] if e["withdrawn"] else 0)
+                d["calls_outstanding_on_a_closed_adapter"] += e["pend"] if (e["e"] == "AdpClose" or e["withdrawn"]) else 0
+            elif e["e"] == "CallEnd":
+                k = e["k"] + (":" + e["err"] if e.get("err") else "")
+                d["call_outcomes"][k] = d["call_outcomes"].get(k, 0) + 1
+    return st
+
+
+def adp_vacuous(traces):
+    """The classes in which no call was outstanding on an adapter at the moment it was closed."""
+    st = adp_stats(traces)
+    return [c for c in ADP_CLOSING if st.get(c, {}).get("calls_outstanding_on_a_closed_adapter", 0) == 0]
+
+
+def selftests_adp(ctx, traces):
+    """traces: adapter-close runs TLC accepted.  (1) the run cut right after the close, with calls in flight, and ended by ProcExit;
+    (2) a first-wave call that ended with a timeout reported as a success with an empty response."""
+    for t in traces:
+        marks = [i for i, e in enumerate(t) if e["e"] in ("Refreshed", "AdpClosed")]
+        closes = [e for e in t if e["e"] in ("Refresh", "AdpClose") and e["pend"] > 0 and (e["e"] == "AdpClose" or e["withdrawn"])]
+        to = [e for e in t if e["e"] == "CallEnd" and e["k"] == "timeout" and e["c"] <= t[0]["k1"]]
+        if not (marks and closes and to and t[-1]["e"] == "Quiesce" and t[0]["k"] <= 8):
+            continue
+        cut = marks[0] + 1
+        ended = {e["c"] for e in t[:cut] if e["e"] == "CallEnd"}
+        if len(ended) == t[0]["k1"]:
+            continue
+        m1 = t[:cut] + [{"e": "ProcExit", "rc": 255, "t": t[cut - 1]["t"]}]
+        m2 = [dict(e, k="reply", p=0, rid=0, tag=0) if e is to[0] else e for e in t]
+        return require_all_rejected(ctx, C08_INV, {"process-ended-with-calls-outstanding-at-the-close": (m1, None),
+                                                   "timeout-after-close-reported-as-empty-success": (m2, "ReplyMatches")}, ADP_MODULE, ADP_SPEC)
+    raise Inconclusive("no adapter-close run suitable for the binding self-test (none with a call outstanding at the close that timed out)")
+
+
+
 # ------------------------------------------------------------------ trace validation
-def cfg_text(nc, invariants):
+def cfg_text(nc, invariants, spec="TraceSpec"):
     t = open(os.path.join(VERIF, "spec", SPEC, "Trace.cfg.tmpl")).read().replace("@NC@", str(nc))
+    t = t.replace("SPECIFICATION TraceSpec", "SPECIFICATION " + spec)
     return re.sub(r"^INVARIANTS.*$", "INVARIANTS " + " ".join(invariants), t, flags=re.M)
 
 
@@ -156,7 +307,7 @@ def nc_of(t):
     return 8 if k <= 8 else 32 if k <= 32 else 128 if k <= 128 else 512
 
 
-def validate(ctx, traces, invariants, name, groups=4, timeout=1500, singly=False):
+def validate(ctx, traces, invariants, name, groups=4, timeout=1500, singly=False, module="Trace_ClientMux", spec="TraceSpec"):
     """Validates the traces in parallel TLC runs.  Returns (failures, stats, tinv): a failure is (trace, info);
     tinv maps scenario index -> (observed, predicted) connection.invokeNum where TQuiesce printed a deviation."""
     buckets = {}
@@ -169,7 +320,7 @@ def validate(ctx, traces, invariants, name, groups=4, timeout=1500, singly=False
 
     def val(item):
         (nc, g), ts = item
-        return ts, bucket(ctx, ts, cfg_text(nc, invariants), "%s-%d-%d" % (name, nc, g), timeout)
+        return ts, bucket(ctx, ts, cfg_text(nc, invariants, spec), "%s-%d-%d" % (name, nc, g), timeout, module=module)
 
     failures, states, trans, tinv, early = [], 0, 0, {}, {}
     with ThreadPoolExecutor(max_workers=min(6, len(buckets) or 1)) as ex:
@@ -183,13 +334,13 @@ def validate(ctx, traces, invariants, name, groups=4, timeout=1500, singly=False
     return failures, {"states": states, "transitions": trans, "early": early}, tinv
 
 
-def bucket(ctx, traces, cfg, name, timeout, max_failures=8):
+def bucket(ctx, traces, cfg, name, timeout, max_failures=8, module="Trace_ClientMux"):
     """tracecheck.validate, keeping TLC's output: TQuiesce prints <<"TINV", scenario, observed, predicted>> whenever
     connection.invokeNum read from the code is not 0 or differs from the model's prediction."""
     idx = list(range(len(traces)))
     failures, states, trans, tinv, early = [], 0, 0, {}, {}
     while idx:
-        ok, bad, r = tracecheck.run_once(ctx, SPEC, "Trace_ClientMux", cfg, [traces[i] for i in idx], name, {"e": "End"}, timeout, None, False)
+        ok, bad, r = tracecheck.run_once(ctx, SPEC, module, cfg, [traces[i] for i in idx], name, {"e": "End"}, timeout, None, False)
         states += r.distinct
         trans += r.generated
         for m in re.finditer(r'<<"TINV", (-?\d+), (-?\d+), (-?\d+)>>', r.out):
@@ -216,8 +367,8 @@ def describe(t, f):
             "invariant": f["invariant"], "prefix": f["prefix"], "trace": t if len(t) <= 400 else t[:400]}
 
 
-def require_rejected(ctx, t, invariants, name, expect_inv=None):
-    acc, fails, _ = tracecheck.validate(ctx, SPEC, "Trace_ClientMux", cfg_text(nc_of(t), invariants), [t], name=name, reset={"e": "End"},
+def require_rejected(ctx, t, invariants, name, expect_inv=None, module="Trace_ClientMux", spec="TraceSpec"):
+    acc, fails, _ = tracecheck.validate(ctx, SPEC, module, cfg_text(nc_of(t), invariants, spec), [t], name=name, reset={"e": "End"},
                                         timeout=300)
     if not fails:
         raise Inconclusive("binding self-test failed: corrupted trace '%s' was accepted" % name)
@@ -227,10 +378,10 @@ def require_rejected(ctx, t, invariants, name, expect_inv=None):
     return "rejected" + (":" + inv[0] if inv else ":no-step-for:" + str(fails[0]["event"].get("e")))
 
 
-def require_all_rejected(ctx, invariants, cases):
+def require_all_rejected(ctx, invariants, cases, module="Trace_ClientMux", spec="TraceSpec"):
     """cases: {name: (trace, expected invariant or None)}; the corrupted traces are judged in parallel."""
     with ThreadPoolExecutor(max_workers=len(cases)) as ex:
-        futs = {n: ex.submit(require_rejected, ctx, t, invariants, "st-" + re.sub(r"[^a-z0-9]+", "-", n.lower())[:24], inv)
+        futs = {n: ex.submit(require_rejected, ctx, t, invariants, "st-" + re.sub(r"[^a-z0-9]+", "-", n.lower())[:24], inv, module, spec)
                 for n, (t, inv) in cases.items()}
         return {n: f.result() for n, f in futs.items()}
 
@@ -331,8 +482,10 @@ def run(ctx):
     ]
     quick = ctx.quick
     mc_cfgs = ["ids", "mux2", "mux3"] if quick else ["ids_t", "mux2_t", "mux3_t"]
-    with ThreadPoolExecutor(max_workers=3) as mcex:
+    adp_cfgs = [ctx.pick("adpclose", "adpclose_t"), "adpclose_kf"]
+    with ThreadPoolExecutor(max_workers=5) as mcex:
         futs = start_mc(ctx, mcex, mc_cfgs, workers=ctx.pick(3, 4), timeout=ctx.pick(300, 840))
+        afuts = start_mc(ctx, mcex, adp_cfgs, workers=ctx.pick(2, 3), timeout=ctx.pick(300, 840), module="MC_ClientMuxAdp")
         exe = gobuild.build(ctx, "muxdrive")
         per, maxk, shards = ctx.pick(10, 100), ctx.pick(32, 128), ctx.pick(8, 10)
         ctx.log("harness built")
@@ -345,11 +498,33 @@ def run(ctx):
         if not quick:       # a few runs with 512 callers in flight at once on one proxy
             crowd, _ = drive(ctx, exe, ["crowd"], 4, 512, 4, "c08crowd", selftest=False)
             traces += crowd
-        ctx.log("%d runs recorded" % len(traces))
+        # adapters closed (registry refresh withdrawing an endpoint, re-keying it, the export) while calls are outstanding on them
+        atraces, ahits, aexits, anotes = drive_adp(ctx, exe, ctx.pick(2, 10), ctx.pick(16, 32), ctx.pick(2, 4), "c08adp")
+        vac = adp_vacuous(atraces)
+        if vac and not aexits:      # (which endpoint a caller meets and how fast the harness runs are not scripted) once more, other plan
+            more = drive_adp(ctx, exe, 4, ctx.pick(16, 32), 2, "c08adp2", seed=ctx.seed + 7919, classes=vac, sc_offset=300000)
+            atraces, aexits, anotes = atraces + more[0], aexits + more[2], anotes + more[3]
+        ctx.notes.extend(anotes)
+        ctx.log("%d runs recorded (+ %d with an adapter closed under outstanding calls)" % (len(traces), len(atraces)))
         recs, sets, orc = id_oracle(ctx, exe)
-        failures, st, _ = validate(ctx, traces, C08_INV, "c08", groups=ctx.pick(3, 6))
+        with ThreadPoolExecutor(max_workers=2) as vex:
+            af = vex.submit(validate, ctx, atraces, C08_INV, "c08adp", 2, 900, False, ADP_MODULE, ADP_SPEC)
+            failures, st, _ = validate(ctx, traces, C08_INV, "c08", groups=ctx.pick(3, 6))
+            afailures, ast, _ = af.result()
+        failures += afailures
+        st = {"states": st["states"] + ast["states"], "transitions": st["transitions"] + ast["transitions"]}
         ctx.log("traces validated: %d rejected" % len(failures))
         bad = {id(t) for t, _ in failures}
+        astats = adp_stats(atraces)
+        vac = adp_vacuous(atraces)
+        if vac and not afailures:
+            raise Inconclusive("vacuous: no call was outstanding on an adapter at the moment it was closed in class(es) %s" % vac)
+        try:
+            aselftest = selftests_adp(ctx, [t for t in atraces if id(t) not in bad])
+        except Inconclusive as e:
+            if not afailures:
+                raise
+            aselftest = {"skipped": str(e)[:200]}
         try:
             selftest = selftests_c08(ctx, [t for t in traces if id(t) not in bad])
         except Inconclusive as e:
@@ -359,6 +534,7 @@ def run(ctx):
             selftest = {"skipped": str(e)[:200]}
         ctx.log("self-tests done")
         mc = collect_mc(futs)
+        mc.update(collect_mc(afuts, {"adpclose_kf": "WaitEndsByReplyOrDeadline"}))
         ctx.log("model checking done")
     # ---- id generator oracle
     for i in sets["ZERO"]:
@@ -392,11 +568,28 @@ def run(ctx):
             ev = f["event"]
             sig = "C08:trace-rejected:%s:%s" % (cls, ev.get("e"))
             what = "run of class '%s' (%d callers) is not a behaviour of ClientMux at event %s" % (cls, t[0]["k"], json.dumps(ev))
+            if ev.get("e") == "ProcExit":
+                done = {e["c"] for e in t if e["e"] == "CallEnd"}
+                started = {e["c"] for e in t if e["e"] == "CallStart"}
+                x = next((x for x in aexits if x["trace"] is t), {})
+                sig = "C08:process-exit:%s:calls-in-flight" % cls
+                what = ("the process making the calls ended (exit status %s, reproduced when the scenario was run again alone) while %d call(s) "
+                        "were in flight (callers %s of %d): they got neither the response to their request nor a timeout error.  Class '%s': %s; "
+                        "last events: %s; stderr: %s"
+                        % (ev.get("rc"), len(started - done), sorted(started - done)[:8], t[0]["k"], cls, t[0].get("steps"),
+                           json.dumps([(e["e"], e.get("c"), e.get("k")) for e in t[-8:-1]]),
+                           " | ".join(l.strip() for l in x.get("stderr", [])[:6])[:600]))
             if ev.get("e") == "CallEnd" and ev.get("k") == "reply" and ev.get("tag") not in (0, ev.get("c")):
                 sig = "C08:reply-of-another-call:%s" % cls
                 what = "caller %d was handed a response carrying the payload of caller %d's request (response id %d, peer packet %d)" % (
                     ev["c"], ev["tag"], ev["rid"], ev["p"])
         ctx.violate(sig, what, describe(t, f))
+    # a process that ended with no call in flight hands nobody a wrong response: the statement is silent, an observation
+    for x in aexits:
+        if not any(t is x["trace"] for t, _ in failures):
+            ctx.notes.append("adapter-close scenario %d (%s): the process ended with status %s (reproduced) when no call was in flight"
+                             % (x["trace"][0]["sc"], x["trace"][0]["cls"], x["rc"]))
+    traces = traces + atraces
     ncalls = sum(t[0]["k"] for t in traces)
     outcomes = {}
     for t in traces:
@@ -415,8 +608,11 @@ def run(ctx):
         "rule": "runs: %d scenarios of classes %s, 1..%d concurrent callers sharing one proxy, timeouts 50-300 ms (configured, per call, "
                 "context deadline shorter/longer), the id counter placed below the wrap point (%d runs) / below zero (%d runs); %d of the "
                 "runs with a transparent client filter registered (%s, one process each) over classes %s; "
-                "evaluations = calls, distinct = distinct event orders" % (len(traces), C08_CLASSES, maxk, wrap, zero, len(ftraces), FILTERS,
-                                                                            FILTER_CLASSES),
+                "%d runs in which an adapter is closed while calls are outstanding on it (registry refresh withdrawing / re-keying an "
+                "endpoint through the manager's own refresher, the export close; classes %s; a process that ends is reproduced and then "
+                "judged by TLC from the written-through journal); "
+                "evaluations = calls, distinct = distinct event orders" % (len(traces), C08_CLASSES + ADP_CLASSES, maxk, wrap, zero, len(ftraces),
+                                                                            FILTERS, FILTER_CLASSES, len(atraces), ADP_CLASSES),
         "runs_with_client_filter": {f: sum(1 for t in ftraces if t[0].get("flt") == f) for f in FILTERS},
         "model_checking": mc, "call_outcomes": outcomes,
         "peer_packets": sum(1 for t in traces for e in t if e["e"] == "PeerSend"),
@@ -424,5 +620,7 @@ def run(ctx):
         "lookups_not_found": sum(1 for t in traces for e in t if e["e"] == "RecvLookup" and not e["found"]),
         "id_oracle_records": len(recs), "id_oracle": {k: len(v) for k, v in sets.items()},
         "observations": {"records_not_in_the_order_of_IdGen": len(off)},
+        "adapter_closed_under_outstanding_calls": {"runs": len(atraces), "classes": astats, "processes_that_ended": len(aexits),
+                                                   "hook_hits": ahits, "selftest_corrupted_traces": aselftest},
         "hook_hits": hits, "selftest_corrupted_traces": selftest, "exhaustive": False,
     }
